@@ -30,7 +30,8 @@ RULE = ("[dev] every (P,S) pair x every combination of <=D dimensions off defaul
         "[mesh] P meshes of 101, 132, 11x11, 12x11 points x every effective-radius mode x (1-D, 1-D beta, 2-D); "
         "[mixed] every pure-Python P x 4 S built with dtype='single' (P double, S single), default + each single deviation, "
         "judged by the usual recombination with the single-precision S evaluated alone (finite wherever that is); "
-        "[reuse] one kernel object evaluated for A then B, B differing in exactly one setting, both orders; "
+        "[reuse] one kernel object evaluated for A then B, B differing in exactly one setting, both orders, and A a "
+        "refused evaluation (too many dispersed P parameters, magnetism on a pure-Python P, beta in 2-D); "
         "non-trivial = S(q) differs from 1 by >1e-6 at some q and the result is finite")
 ASSUMPTIONS = [
     "meshes beyond the 100-point chunk of the DLL driver: P's averages come from single-point evaluations "
@@ -194,6 +195,19 @@ def _reuse_cases(ctx, p, s):
                 continue
             yield {"kind": "reuse", "P": p, "S": s, "change": ch, "A": a, "cfg": b}
             yield {"kind": "reuse", "P": p, "S": s, "change": ch, "A": b, "cfg": a}
+    # ... and after an evaluation that is REFUSED (every reason reachable for this pair)
+    for dim in ("1d", "2d"):
+        ok_cfg = dict(base, dim=dim)
+        active = pinfo.parameters.pd_1d if dim == "1d" else pinfo.parameters.pd_2d
+        if len([q for q in pinfo.parameters.call_parameters if q.name in active]) > pinfo.parameters.max_pd:
+            yield {"kind": "reuse", "P": p, "S": s, "change": "refused:too-many-dispersed", "refused": 1,
+                   "A": dict(ok_cfg, pdmany=1), "cfg": ok_cfg}
+        if pinfo.parameters.nmagnetic and is_py(p):
+            yield {"kind": "reuse", "P": p, "S": s, "change": "refused:python-magnetism", "refused": 1,
+                   "A": dict(ok_cfg, mag=1), "cfg": ok_cfg}
+    if "beta" in dims:
+        yield {"kind": "reuse", "P": p, "S": s, "change": "refused:beta-2d", "refused": 1,
+               "A": dict(base, dim="2d", beta=1), "cfg": dict(base, dim="2d")}
 
 
 def _mixed_cases(ctx):
@@ -299,6 +313,12 @@ def run_case(case, ctx):
         call_kernel(k_ps, dict(pars_a))
     except Exception:  # noqa - the first evaluation is judged by the ordinary cases; only its after-effects matter here
         pass
+    else:
+        if case.get("refused"):
+            return r.ok(outcome="not-refused", branches=["reuse:refusal-not-raised"])
+    if case.get("refused"):
+        r.branch("reuse-after-refusal")
+        r.branch("reuse-after-" + case["change"])
     shown = {k: v for k, v in pars_a.items() if k_ps.info.parameters.defaults.get(k) != v}
     return _judge(r, case["P"], case["S"], b_cfg, k_ps=k_ps,
                   reuse=(case["change"], "same kernel object evaluated first with non-default pars=%s, then: " % shown))
@@ -378,6 +398,12 @@ def _pars(pname, sname, cfg):
             br.append("P-dispersity")
     if cfg.get("pd1") and cfg.get("pd2"):
         br.append("P-dispersity-2")
+    if cfg.get("pdmany"):
+        active = pinfo.parameters.pd_1d if dim == "1d" else pinfo.parameters.pd_2d
+        many = [q.name for q in pinfo.parameters.call_parameters if q.name in active][:pinfo.parameters.max_pd + 1]
+        for nm in many:
+            pd.update({nm + "_pd": 4.0 if nm in ("theta", "phi", "psi") else 0.05, nm + "_pd_n": 2,
+                       nm + "_pd_type": "gaussian"})
     spec = {}        # explicit (type, n, width, nsigmas) per parameter for the single-point reference mean
     if cfg.get("mesh"):
         pd = {}
@@ -635,6 +661,9 @@ def finish(ctx, report):
     report.require("reuse-hollow-mode0", 20, "hollow P at mode 0 re-evaluated")
     for ch in REUSE_CHANGES:
         report.require("reuse:" + ch, 20, "re-evaluation after a change of " + ch)
+    report.require("reuse-after-refusal", 40, "ordinary evaluation after a refused one on the same kernel")
+    for reason in ("too-many-dispersed", "python-magnetism", "beta-2d"):
+        report.require("reuse-after-refused:" + reason, 4, "refusal reason " + reason)
     report.require("results-checked", 100, "results() compared")
     report.require("beta", 50, "beta approximation")
     report.require("beta-2d-refused", 10, "beta in 2-D refused")
